@@ -728,6 +728,7 @@ func VerifHarness_RelGas(lo, hi, fork uint64) {
 	verifAssert(verifSameErr(errA, errG), "C02: the same gas error")
 	if errA == nil && errG == nil {
 		verifAssert(gasA == gasG, "C02: the same dynamic gas for every operand, remaining gas and world")
+		verifAssert(gasA >= gasG, "C20: no standard instruction is charged less than go-ethereum charges for the same operands and memory expansion")
 	}
 	verifCompareWorlds(dbA, dbG, "C02")
 	verifAssert(contractA.Gas == contractG.Gas, "C02: the gas function does not itself consume gas")
